@@ -23,12 +23,11 @@
    view (before = after) is emitted once per descriptor as a PD line.  The texts of
    the set-up commands and of the mutators are part of the spec (fields txt), the
    engine only concatenates them into   setup; dump; CONTEXT{ muts; dump }; wait; dump. *)
-EXTENDS Integers, Sequences, FiniteSets, TLC, Json, IOUtils
+EXTENDS Integers, Sequences, FiniteSets, TLC, Json
 
 CONSTANTS MaxLen,      \* maximal number of mutators run by the child
           Buggy,       \* TRUE = aliasing defect switched on (self-test)
-          Wide,        \* FALSE: curated parent descriptors (quick); TRUE: the thorough set
-          Replay       \* TRUE: walk exactly the behaviours listed in the file $VERIF_TRACE
+          Wide         \* FALSE: curated parent descriptors (quick); TRUE: the thorough set
 
 VARIABLES pd,          \* parent descriptor (constant after Init)
           kind,        \* how the child was spawned: "share" or "copy" (constant after Init)
@@ -38,9 +37,8 @@ VARIABLES pd,          \* parent descriptor (constant after Init)
           pfr,         \* parent's frames, bottom (global) first
           pm,          \* parent's non-variable state (functions, aliases, options, cwd, params, OPTIND)
           cov,         \* child's overlay frame
-          cm,          \* child's copy of the non-variable state
-          tr           \* 0, or (Replay) the index of the listed behaviour being walked
-vars == <<pd, kind, muts, heap, np, pfr, pm, cov, cm, tr>>
+          cm           \* child's copy of the non-variable state
+vars == <<pd, kind, muts, heap, np, pfr, pm, cov, cm>>
 
 Names  == <<"s", "t", "a", "m", "o">>          \* dumped variables, in dump order
 NameSet == {Names[i] : i \in 1..Len(Names)}
@@ -60,10 +58,8 @@ Kinds == {"share", "copy"}
 \* A value is a sequence of atoms (TLC strings are atomic); the engine joins them.
 Unset == [k |-> "u", v |-> <<>>, ref |-> 0, x |-> FALSE, r |-> FALSE]
 NoI   == [i \in {} |-> <<>>]
-\* plen is only used by the deviation Dev_AppendInPlace below (-1 everywhere else): the number of
-\* leading elements of the cell that the parent's shorter slice headers still see.
-ICell(f) == [t |-> "i", ie |-> f, ae |-> NoI, plen |-> -1]   \* indexed: index -> value
-ACell(f) == [t |-> "A", ie |-> NoI, ae |-> f, plen |-> -1]   \* associative: key -> value
+ICell(f) == [t |-> "i", ie |-> f, ae |-> NoI]   \* indexed: index -> value
+ACell(f) == [t |-> "A", ie |-> NoI, ae |-> f]   \* associative: key -> value
 
 MapSet(f, k, v) == [j \in (DOMAIN f) \cup {k} |-> IF j = k THEN v ELSE f[j]]
 MapDel(f, k)    == [j \in (DOMAIN f) \ {k} |-> f[j]]
@@ -86,8 +82,7 @@ ReachF(frames) == UNION { { frames[i][n].ref : n \in DOMAIN frames[i] } : i \in 
 \* ---------------------------------------------------------------- copy on write
 \* make the cell of reference c writable by the child: cells above np are its own
 Own(st, c) == IF c > np THEN [st |-> st, c |-> c]
-              ELSE [st |-> [st EXCEPT !.heap = Append(st.heap, [st.heap[c] EXCEPT !.plen = -1])],
-                    c |-> Len(st.heap) + 1]
+              ELSE [st |-> [st EXCEPT !.heap = Append(st.heap, st.heap[c])], c |-> Len(st.heap) + 1]
 New(st, cell) == [st |-> [st EXCEPT !.heap = Append(st.heap, cell)], c |-> Len(st.heap) + 1]
 
 Arr(rc, c)  == [rc EXCEPT !.k = "i", !.v = <<>>, !.ref = c]
@@ -102,21 +97,13 @@ SetElem(st, n, i, val) ==
        Put([o.st EXCEPT !.heap[o.c].ie = MapSet(@, i, val)], n, Arr(rc, o.c))
   ELSE LET o == New(st, ICell(MapSet(IContent(st, rc), i, val))) IN Put(o.st, n, Arr(rc, o.c))
 
-\* Dev_AppendInPlace: what interp.Runner.assignVal is known to compute for `name+=value` on an
-\* indexed array whose storage is still the parent's (vars.go: `prev.List[0] += s`, and
-\* internal.SetIndexedElem inserting into prev.List/prev.Indexes, which have spare capacity here).
-\* If element 0 exists the shared cell is written.  Otherwise the value is inserted in front of the
-\* shared storage: the child sees the whole of it, the parent -- whose slice headers keep their
-\* length plen -- sees its first plen elements under the first plen indices; child and parent
-\* go on sharing that storage.  Used only when Buggy = TRUE: as the model's self-test (Isolation
-\* must fail) and to recognise the known finding by its exact effect.
-Dev_AppendInPlace(st, n, val) ==
+\* The aliasing defect of the self-test (Buggy = TRUE only): `name+=value` on an indexed array whose
+\* storage is still the parent's writes the shared cell in place (what interp.Runner.assignVal did before
+\* commit 6880309).  Isolation must then fail.
+AliasingWrite(st, n, val) ==
   LET rc == Cur(st, n)
-      cl == st.heap[rc.ref]
-      f  == cl.ie IN
-  IF 0 \in DOMAIN f THEN [st EXCEPT !.heap[rc.ref].ie = MapSet(@, 0, f[0] \o val)]
-  ELSE [st EXCEPT !.heap[rc.ref] = [cl EXCEPT !.ie = MapSet(f, 0, val),
-                                             !.plen = IF cl.plen = -1 THEN Cardinality(DOMAIN f) ELSE cl.plen]]
+      f  == st.heap[rc.ref].ie IN
+  [st EXCEPT !.heap[rc.ref].ie = MapSet(@, 0, (IF 0 \in DOMAIN f THEN f[0] ELSE <<>>) \o val)]
 
 DelElem(st, n, i) ==
   LET rc == Cur(st, n) IN
@@ -137,7 +124,7 @@ Assign(st, n, val) ==
 AppStr(st, n, val) ==
   LET rc == Cur(st, n) IN
   IF rc.k = "i" THEN (IF Buggy /\ rc.ref <= np
-                      THEN Dev_AppendInPlace(st, n, val)
+                      THEN AliasingWrite(st, n, val)
                       ELSE SetElem(st, n, 0, Elem0(st, rc) \o val))
   ELSE Put(st, n, [rc EXCEPT !.k = "s", !.v = rc.v \o val, !.ref = 0])
 
@@ -292,30 +279,24 @@ ApplyMisc(c, mu) ==
     [] mu.op = "optind"    -> [c EXCEPT !.oi = mu.i]
     [] OTHER -> c
 
-\* Replay mode (used to aim the deviation model at the behaviours on which the code failed):
-\* one JSON object {id, pd, kind, muts} per line.
-Listed == IF Replay THEN ndJsonDeserialize(IOEnv.VERIF_TRACE) ELSE <<>>
 Step(mu) ==
   LET st == [cov |-> cov, heap |-> heap] IN
   /\ Len(muts) < MaxLen
-  /\ tr # 0 => LET want == Listed[tr].muts IN Len(muts) < Len(want) /\ want[Len(muts) + 1] = mu.txt
   /\ Enabled(st, cm, mu)
   /\ LET s1 == ApplyVar(st, mu)
          s2 == IF mu.op = "getopts" THEN Assign(s1, "o", V(GetoptsLetter(cm.oi))) ELSE s1 IN
      /\ cov' = s2.cov /\ heap' = s2.heap
   /\ cm' = ApplyMisc(cm, mu)
   /\ muts' = Append(muts, mu.txt)
-  /\ UNCHANGED <<pd, kind, np, pfr, pm, tr>>
+  /\ UNCHANGED <<pd, kind, np, pfr, pm>>
 
 Next == LET MT == Mutators IN \E i \in 1..Len(MT) : Step(MT[i])
 
 \* ---------------------------------------------------------------- observable views
 Flags(rc) == (IF rc.k = "i" THEN <<"a">> ELSE IF rc.k = "A" THEN <<"A">> ELSE <<>>)
              \o (IF rc.r THEN <<"r">> ELSE <<>>) \o (IF rc.x THEN <<"x">> ELSE <<>>)
-\* asParent: apply the plen truncation of Dev_AppendInPlace (a no-op unless Buggy)
 VarView(rc, hp, asParent) ==
-  LET ks0 == IF rc.k = "i" THEN SortedKeys(DOMAIN hp[rc.ref].ie) ELSE <<>>
-      ks  == IF asParent /\ rc.k = "i" /\ hp[rc.ref].plen >= 0 THEN SubSeq(ks0, 1, hp[rc.ref].plen) ELSE ks0 IN
+  LET ks == IF rc.k = "i" THEN SortedKeys(DOMAIN hp[rc.ref].ie) ELSE <<>> IN
   [ k     |-> rc.k, at |-> Flags(rc), v |-> rc.v,
     keys  |-> ks,
     vals  |-> [p \in 1..Len(ks) |-> hp[rc.ref].ie[ks[p]]],
@@ -410,9 +391,7 @@ SetupTxt(d) ==
 \* Spawn(kind): see CtxOf above.
 Flat(frames) == [n \in NameSet |-> Lookup(frames, n)]
 Init ==
-  /\ IF Replay
-     THEN LET L == Listed IN \E i \in 1..Len(L) : tr = i /\ pd = L[i].pd /\ kind = L[i].kind
-     ELSE tr = 0 /\ pd \in PDs /\ kind \in Kinds
+  /\ pd \in PDs /\ kind \in Kinds
   /\ LET i0 == InitFor(pd) IN
      /\ heap = i0.heap /\ np = Len(i0.heap) /\ pfr = i0.pfr /\ pm = i0.pm /\ cm = i0.pm
      /\ cov = IF kind = "copy" THEN Flat(i0.pfr) ELSE [n \in {} |-> Unset]
@@ -437,7 +416,7 @@ HeapWF == /\ ReachF(pfr) \subseteq 1..np
                /\ rc.ref # 0 => heap[rc.ref].t = rc.k
                /\ (rc.k = "s") \/ rc.v = <<>>
 \* parent frames and parent misc are not variables any child action may touch
-Frozen == [][pfr' = pfr /\ pm' = pm /\ np' = np /\ pd' = pd /\ kind' = kind /\ tr' = tr]_vars
+Frozen == [][pfr' = pfr /\ pm' = pm /\ np' = np /\ pd' = pd /\ kind' = kind]_vars
 \* sanity of the model itself: a mutator list that assigns has an effect in the child
 \* (guards against a vacuous model in which nothing ever changes)
 ChildSeesOwnWrites ==
@@ -449,9 +428,6 @@ ChildSeesOwnWrites ==
 EmitPD == (muts = <<>> /\ kind = "share") =>
   PrintT(<<"PD", ToJson([pd |-> pd, setup |-> SetupTxt(pd), pview |-> ParentView,
                           gview |-> GlobalView])>>)
-\* (Buggy = TRUE, Replay = TRUE) the parent view the known defect produces on a listed behaviour
-EmitDev == (tr # 0 /\ Len(muts) = Len(Listed[tr].muts)) =>
-  PrintT(<<"DEV", ToJson([id |-> Listed[tr].id, pview |-> ParentView])>>)
 \* Dev_LastPipe: the interpreter is known to run the last stage of a pipeline in the parent
 \* shell (bash does so only under `shopt -s lastpipe`); what it then shows as the parent's
 \* state after the pipeline is the child view.
